@@ -14,17 +14,16 @@
 (*                fresh lookup and an unexpired cache entry may disagree,  *)
 (*                and the statement says the cache entry wins.             *)
 (*                                                                         *)
-(* Two uses (.cfg files), both over the complete, unbounded-history graph   *)
+(* Two uses (.cfg files), both over the complete, unbounded-history graph  *)
 (* of <<db, cache>> (entry ages are relative, so the graph is finite):     *)
 (*   mc   checks the invariants and the step property below on every       *)
 (*        reachable state / transition, with TLC's coverage statistics.    *)
-(*   gen  prints the transitions as labelled edges [s, a, args, out, d];    *)
+(*   gen  prints the transitions as labelled edges [s, a, args, out, d];   *)
 (*        here Check takes only the outcome the present implementation is  *)
 (*        predicted to choose (ImplOnly, see "implementation model") and   *)
 (*        the state carries that model.  The orchestrator computes walks   *)
-(*        that                                                             *)
-(*        cover every (state, action) pair, the harness performs them on   *)
-(*        the real hashprefix.Checker, and TraceHashPrefix.tla judges      *)
+(*        that cover every (state, action) pair, the harness performs them *)
+(*        on the real hashprefix.Checker, and TraceHashPrefix.tla judges   *)
 (*        every observed (question, verdict) against ALL outcomes the      *)
 (*        rules admit in the state the walk is in.                         *)
 (*                                                                         *)
@@ -85,8 +84,6 @@ HOfId(i) == LET d == CHOOSE d \in DomTab : d.id = i IN [p |-> d.p, r |-> d.id]
 HOf(l) == IF \E d \in DomTab : d.l = l
           THEN LET d == CHOOSE d \in DomTab : d.l = l IN [p |-> d.p, r |-> d.id]
           ELSE NoHash
-AllHashes == {[p |-> d.p, r |-> d.id] : d \in DomTab}
-
 Suffix(l, k) == SubSeq(l, Len(l) - k + 1, Len(l))
 MkName(l, cut, opt) ==
     [l |-> l, cut |-> cut, opt |-> opt,
